@@ -32,6 +32,7 @@ def dom_geom(kind, n):
     if kind == 'MappedInv': return MappedGeometry(Continuous1D(n), map=lambda v: 2 * v + 1, imap=lambda f: (f - 1) / 2)
     if kind == 'Step': return StepExpansion(np.linspace(0, 1, 2 * n), n_steps=n)
     if kind == 'KL': return KLExpansion(np.linspace(0, 1, 2 * n), num_modes=n)
+    if kind == 'KLfull': return KLExpansion(np.arange(n), num_modes=n)          # as many modes as nodes, default grid: par_dim == fun_dim
     if kind == 'Grad': return GradGeometry(n)
     raise ValueError(kind)
 
@@ -69,6 +70,9 @@ def representations(c, kind, dom, m=2, n=2, N=2):
     oa = model.forward(a)
     c.holds('cuqiarray_in_gives_cuqiarray_out_as_range_parameters', isinstance(oa, CUQIarray) and oa.is_par and oa.geometry == model.range_geometry)
     c.eq('forward_of_cuqiarray_parameters', np.asarray(oa), spec)
+    # a CUQIarray built WITHOUT a geometry (default geometry) is a plain parameter vector: the model's own domain geometry applies
+    if not dom.startswith('Image2D'):
+        c.eq('forward_of_default_geometry_cuqiarray_is_forward_of_the_vector', np.asarray(model.forward(CUQIarray(p.copy()))), spec)
     # history: the same array object is updated in place and used again (as samplers and optimisers do)
     q = c.vec('q', n)
     a[:] = q
@@ -204,7 +208,7 @@ def jobs(tier):
     GL = [f'{M}:Model.gradient', f'{M}:Model._check_gradient_can_be_computed', f'{M}:Model.__init__']
     doms = ['default', 'Continuous1D', 'Image2D:C', 'Image2D:F', 'Mapped', 'Step', 'Grad']
     for kind in ('jacobian', 'gradient', 'linear'):
-        for dom in doms:
+        for dom in doms + ['KLfull']:
             n = 4 if dom.startswith('Image2D') else 2
             if kind == 'jacobian' and dom.startswith('Image2D'): continue
             J.append(Job(f'forward:{kind}:domain={dom}', lambda c, k=kind, d=dom, n=n: representations(c, k, d, 2, n), 'Pbox', FL, maxpaths=256))
